@@ -262,7 +262,7 @@ impl Sectors {
         //# C13.sectors_new
         r.sz() == size && r.loaded() == data@ && ((size == 64 || size == 512 || size == 4096) ==> r.wf()),
 //@@ end
-//@@ fn src/cfb.rs Sectors::get props=C13 entry ret=res
+//@@ fn src/cfb.rs Sectors::get props=C13,C20 entry ret=res
 //@@ sig
     requires
         old(self).wf(),
@@ -271,7 +271,7 @@ impl Sectors {
         final(self).sz() == old(self).sz() && final(self).wf(),
         //# C13.get_frame_data_grows
         old(self).loaded().len() <= final(self).loaded().len() && final(self).loaded().take(old(self).loaded().len() as int) == old(self).loaded(),
-        //# C13.get_sector
+        //# C13,C20.get_sector
         sector_in(old(self).total(old(r)), old(self).sz(), id as int) ==> (match res {
             Ok(s) => s@ == sector(old(self).total(old(r)), old(self).sz(), id as int),
             Err(e) => e is Io,
@@ -372,7 +372,7 @@ impl Sectors {
 //@@ replace /map_err\(CfbError::Io\)/ Verus does not support a datatype constructor as a function value; eta-expanded
 map_err(|e| -> (ce: CfbError) ensures ce is Io { CfbError::Io(e) })
 //@@ end
-//@@ fn src/cfb.rs Sectors::get_chain props=C13 entry ret=res
+//@@ fn src/cfb.rs Sectors::get_chain props=C13,C20 entry ret=res
 //@@ sig
     requires
         old(self).wf(),
@@ -381,7 +381,7 @@ map_err(|e| -> (ce: CfbError) ensures ce is Io { CfbError::Io(e) })
         final(self).sz() == old(self).sz() && final(self).wf(),
         //# C13.chain_frame_data_grows
         old(self).loaded().len() <= final(self).loaded().len() && final(self).loaded().take(old(self).loaded().len() as int) == old(self).loaded(),
-        //# C13.chain_bytes
+        //# C13,C20.chain_bytes
         forall|fuel: nat| #[trigger] chain_ok(old(self).total(old(r)), old(self).sz(), fats@, sector_id, fuel) ==> (match res {
             Ok(v) => v@ == stream_bytes(old(self).total(old(r)), old(self).sz(), fats@, sector_id, len as int, fuel),
             Err(e) => e is Io,
@@ -552,7 +552,7 @@ proof fn lemma_signature(h: Seq<u8>)
 }
 
 //@@ impl src/cfb.rs Header
-//@@ fn src/cfb.rs Header::from_reader props=C13 entry ret=res
+//@@ fn src/cfb.rs Header::from_reader props=C13,C20 entry ret=res
 //@@ sig
     ensures
         //# C13,C20.header_invalid_rejected
@@ -563,7 +563,7 @@ proof fn lemma_signature(h: Seq<u8>)
         hdr_valid((*old(f)).rem()) ==> (match res { Ok(_) => true, Err(e) => e is Io }),
         //# C13,C20.header_io_error_flag
         (res matches Err(CfbError::Io(_)) ==> (*final(f)).io_failed()) && (res is Ok ==> (*final(f)).io_failed() == (*old(f)).io_failed()),
-        //# C13.header_fields
+        //# C13,C20.header_fields
         match res {
             Ok((hd, difat)) => {
                 let h = (*old(f)).rem();
@@ -579,9 +579,9 @@ proof fn lemma_signature(h: Seq<u8>)
             },
             Err(_) => true,
         },
-        //# C13.header_difat_109
+        //# C13,C20.header_difat_109
         match res { Ok((hd, difat)) => difat@ == hdr_difat((*old(f)).rem()) && difat@.len() == 109, Err(_) => true },
-        //# C13.header_consumes_first_sector
+        //# C13,C20.header_consumes_first_sector
         match res {
             Ok((hd, difat)) => (*old(f)).rem().len() >= hdr_sector_size((*old(f)).rem()) && (*final(f)).rem() == (*old(f)).rem().skip(hdr_sector_size((*old(f)).rem())),
             Err(_) => true,
@@ -1128,7 +1128,7 @@ fn verif_chunks_map_collect<T, F: FnMut(&[u8]) -> T>(s: &[u8], n: usize, f: F) -
 //@@ closure 0
 -> (b: bool) ensures b == (d.name@ == name@)
 //@@ end
-//@@ fn src/cfb.rs Cfb::get_stream props=C13 entry ret=res
+//@@ fn src/cfb.rs Cfb::get_stream props=C13,C20 entry ret=res
 //@@ sig
     requires
         old(self).wf(),
@@ -1143,7 +1143,7 @@ fn verif_chunks_map_collect<T, F: FnMut(&[u8]) -> T>(s: &[u8], n: usize, f: F) -
         !has_name(old(self).dirs(), name@) ==> (match res { Err(CfbError::StreamNotFound(s)) => s@ == name@, _ => false }),
         //# C13,C20.get_stream_io_error_flag
         (res matches Err(CfbError::Io(_)) ==> (*final(r)).io_failed()) && (res is Ok ==> (*final(r)).io_failed() == (*old(r)).io_failed()),
-        //# C13.get_stream_reads_logical_stream
+        //# C13,C20.get_stream_reads_logical_stream
         res matches Ok(v) ==> reads_as(old(self).parsed(old(r)), name@, v@),
         //# C13.stream_lookup_independent_of_directory_order
         // every entry bearing the name denotes the returned bytes, i.e. the result does not depend on which same-named entry
@@ -1193,7 +1193,7 @@ fn verif_chunks_map_collect<T, F: FnMut(&[u8]) -> T>(s: &[u8], n: usize, f: F) -
     ensures
         //# C13,C20.new_rejects_invalid_header
         !hdr_valid((*old(reader)).rem()) ==> res is Err,
-        //# C13.new_parses_container
+        //# C13,C20.new_parses_container
         // (`len` is the length of the input, as every caller passes it; it bounds the DIFAT walk)
         forall|fuel: nat| #[trigger] cfb_parse((*old(reader)).rem(), fuel) is Some && len as int >= (*old(reader)).rem().len() ==> (match res {
             Ok(c) => {
